@@ -12,6 +12,9 @@ import PymotoVerif.Lemmas.OverhangReal
 import PymotoVerif.Lemmas.OverhangSymm
 import PymotoVerif.Lemmas.OverhangSens
 import PymotoVerif.Lemmas.OverhangDeriv
+import PymotoVerif.Lemmas.OverhangBackprop
+import PymotoVerif.Lemmas.OverhangPrepare
+import Mathlib.Algebra.Order.Field.Rat
 
 namespace PymotoVerif.C14
 open PymotoVerif PymotoVerif.Domain PymotoVerif.Overhang
@@ -349,16 +352,9 @@ theorem overhang_sens_one_layer (F : Fns α) (P : Par α) (g : Geo) (x : Nat →
     vget (sensitivity F P g x rs seed) e = seed e := by
   rw [sensitivity_one_layer F P g x rs seed hnl, vget_vtab_lt _ he]
 
-/- FULL STATEMENT (not closed): for every tangent `v`, `Σ_e sens(seed)_e · v_e = Σ_e seed_e · (D response(x)[v])_e`,
-   i.e. the reverse sweep is the transposed Jacobian chain of the layer maps (instantiation of the C02 theorem
-   `backChain_source` with one linearised module per layer) and `D response` is the Fréchet derivative over `ℝ`.
-   PROVED below: (1) the loop structure — the code processes the layers `nl-1, …, 1` in reverse print order by `sensStep`
-   on a copy of the seed and then transfers the base layer; (2) what one pass does, element by element, in layer
-   coordinates (`overhang_sens_step_current`, `overhang_sens_step_support`): `dx = seed·∂smin/∂x` on the current layer
-   and, on the previous layer, `dxprint += c·(y_s+shift)^(p-1)` from every element it supports; (3) over `ℝ` each such
-   increment is seed × the true partial derivative along the path support → smooth maximum → smooth minimum
-   (`overhang_sens_support_path`, from the three atoms).  MISSING: the re-indexing (scatter/gather duality over the
-   offsets) that identifies the sum of (2) over a layer with `Jᵀ` of that layer map, and the multi-variable chain rule. -/
+/-- the loop structure of `_sensitivity` (any scalar type): the code processes the layers `nl-1, …, 1` in reverse print
+    order by `sensStep` on a copy of the seed and then transfers the base layer.  (The name is historical and is kept
+    because property C01 lists it; the full statement is `overhang_sens_is_backprop` below.) -/
 theorem overhang_sens_is_backprop_partial (F : Fns α) (P : Par α) (g : Geo) (x : Nat → α) (rs : State α)
     (seed : Nat → α) (hdx : g.dxLayer = 1 ∨ g.dxLayer = -1) (hnl : 2 ≤ g.nl) :
     sensitivity F P g x rs seed =
@@ -425,6 +421,90 @@ theorem overhang_sens_support_path (c : ℝ) (P : Par ℝ) (x K v dy : ℝ) (hK 
 example (P : Par ℝ) (x s : ℝ) (hε : 0 < P.eps) : (x - s) * (x - s) + P.eps ≠ 0 := by
   have := mul_self_nonneg (x - s)
   linarith
+
+/-! ## for property C01: `_sensitivity` is the derivative of `_response` -/
+
+/-- ALGEBRAIC form (transposed Jacobian chain): in layer coordinates the code's reverse sweep equals the reverse
+    recursion `back` — seed of the top layer times `∂smin/∂x`, then for each layer below the running adjoint plus the
+    transposed layer Jacobian `zOf` (entries `β·γ` = the atom derivative formulas) applied to the adjoint of the layer
+    above — and `back` is the adjoint of the forward tangent recursion `tanY` (`back_adjoint`, by the gather/scatter
+    re-indexing over the support table): pairing the sensitivities with any direction `v` equals pairing the seed with
+    the tangent of the response in direction `v`. -/
+theorem overhang_sens_is_transposed_jacobian_chain (c : ℝ) (P : Par ℝ) (g : Geo) (x v w : Nat → ℝ)
+    (hd : g.dirLayer < 3) (hdx : g.dxLayer = 1 ∨ g.dxLayer = -1) :
+    (∀ t a b, t < g.nl → a < g.n1 → b < g.n2 →
+      vget (sensitivity (realFns c) P g x (response (realFns c) P g x) w) (g.el (layerIdx g t) a b) =
+        back g.ns g.n1 g.n2 (coefSpec c P g.ns g.n1 g.n2 (layered g x)) (g.nl - 1) (layered g w) t a b) ∧
+    dot g.dom.nel (vget (sensitivity (realFns c) P g x (response (realFns c) P g x) w)) v =
+      dot g.dom.nel w (tanFlat c P g x v) :=
+  ⟨fun _ _ _ ht ha hb => lay_sensitivity c P g x w hd hdx ht ha hb, (sens_pairing c P g x v w hd hdx).symm⟩
+
+/-- every entry of the response is differentiable along `x + τ v`; its derivative is the forward tangent recursion
+    whose coefficients are the three scalar atoms (chain rule per layer) -/
+theorem overhang_response_hasDerivAt (c : ℝ) (P : Par ℝ) (g : Geo) (x v : Nat → ℝ)
+    (hd : g.dirLayer < 3) (hdx : g.dxLayer = 1 ∨ g.dxLayer = -1) (hns : 2 ≤ g.ns) (hq : P.q ≠ 0)
+    (hpos : ∀ e, e < g.dom.nel → 0 < vget (response (realFns c) P g x).xprint e + P.shift)
+    (hrad : ∀ t a b, t + 1 < g.nl → a < g.n1 → b < g.n2 →
+      (x (g.el (layerIdx g (t+1)) a b) - vget (response (realFns c) P g x).smax (g.el (layerIdx g (t+1)) a b)) *
+      (x (g.el (layerIdx g (t+1)) a b) - vget (response (realFns c) P g x).smax (g.el (layerIdx g (t+1)) a b))
+        + P.eps ≠ 0)
+    {e : Nat} (he : e < g.dom.nel) :
+    HasDerivAt (fun τ : ℝ => vget (response (realFns c) P g (fun e => x e + τ * v e)).xprint e)
+      (tanFlat c P g x v e) 0 :=
+  response_entry_hasDerivAt c P g x v hd hdx hns hq hpos hrad he
+
+/-- FULL STATEMENT (closes `overhang_sens_is_backprop_partial`): for every grid, axis direction, nsampling, input `x`,
+    seed `w` and direction `v`, the pairing of the code's reverse sweep with `v` is the derivative of
+    `τ ↦ Σ_e w_e · response(x + τ v)_e` at `0`.  Side conditions (differentiability of `rpow` and `sqrt`):
+    every printed density satisfies `y_e + shift > 0`, the radicand of every smooth minimum is non-zero
+    (automatic for `ε > 0`, see the corollary), `q ≠ 0`, and the offset `(0,0)` is among the supports (`2 ≤ ns`). -/
+theorem overhang_sens_is_backprop (c : ℝ) (P : Par ℝ) (g : Geo) (x v w : Nat → ℝ)
+    (hd : g.dirLayer < 3) (hdx : g.dxLayer = 1 ∨ g.dxLayer = -1) (hns : 2 ≤ g.ns) (hq : P.q ≠ 0)
+    (hpos : ∀ e, e < g.dom.nel → 0 < vget (response (realFns c) P g x).xprint e + P.shift)
+    (hrad : ∀ t a b, t + 1 < g.nl → a < g.n1 → b < g.n2 →
+      (x (g.el (layerIdx g (t+1)) a b) - vget (response (realFns c) P g x).smax (g.el (layerIdx g (t+1)) a b)) *
+      (x (g.el (layerIdx g (t+1)) a b) - vget (response (realFns c) P g x).smax (g.el (layerIdx g (t+1)) a b))
+        + P.eps ≠ 0) :
+    HasDerivAt (fun τ : ℝ => dot g.dom.nel w (vget (response (realFns c) P g (fun e => x e + τ * v e)).xprint))
+      (dot g.dom.nel (vget (sensitivity (realFns c) P g x (response (realFns c) P g x) w)) v) 0 :=
+  sensitivity_hasDerivAt c P g x v w hd hdx hns hq hpos hrad
+
+/-- … with `ε > 0` the radicand condition is automatic -/
+theorem overhang_sens_is_backprop_eps_pos (c : ℝ) (P : Par ℝ) (g : Geo) (x v w : Nat → ℝ)
+    (hd : g.dirLayer < 3) (hdx : g.dxLayer = 1 ∨ g.dxLayer = -1) (hns : 2 ≤ g.ns) (hq : P.q ≠ 0) (hε : 0 < P.eps)
+    (hpos : ∀ e, e < g.dom.nel → 0 < vget (response (realFns c) P g x).xprint e + P.shift) :
+    HasDerivAt (fun τ : ℝ => dot g.dom.nel w (vget (response (realFns c) P g (fun e => x e + τ * v e)).xprint))
+      (dot g.dom.nel (vget (sensitivity (realFns c) P g x (response (realFns c) P g x) w)) v) 0 := by
+  apply overhang_sens_is_backprop c P g x v w hd hdx hns hq hpos
+  intro t a b _ _ _
+  have := mul_self_nonneg
+    (x (g.el (layerIdx g (t+1)) a b) - vget (response (realFns c) P g x).smax (g.el (layerIdx g (t+1)) a b))
+  linarith
+
+/-- non-vacuity of the side conditions: on a 1×2 grid printed in `+y` with `shift > 0`, a non-negative base element
+    satisfies `y + shift > 0` (the base layer is the input) -/
+example (c : ℝ) (P : Par ℝ) (x : Nat → ℝ) (hs : 0 < P.shift) (hx : 0 ≤ x 0) :
+    let g : Geo := ⟨⟨1, 2, 0⟩, 1, 1, 3⟩
+    0 < vget (response (realFns c) P g x).xprint (g.el (layerIdx g 0) 0 0) + P.shift := by
+  intro g
+  rw [overhang_base_layer _ P g x (by decide) (by decide) (by decide) (by decide) (by decide)]
+  have e3 : g.el (layerIdx g 0) 0 0 = 0 := by decide
+  rw [e3]; linarith
+
+/-! ## `_prepare` fixes the geometry -/
+
+/-- a successful `_prepare` (any linearly ordered field, any `log pow sqrt`) yields a sweep along one of the three axes
+    with `dx_layer = ±1` and 3, 5 or 9 supports — the hypotheses `hd`, `hdx`, `hns` of all theorems above -/
+theorem overhang_prepare_geo {α : Type} [Field α] [LinearOrder α] [IsStrictOrderedRing α]
+    (F : Fns α) (dom : Dom) (arg : DirArg α) (xi0 p eps : α) (ns : Option Int) (pr : Prepared α)
+    (h : prepare F dom arg xi0 p eps ns = .ok pr) :
+    (geoOf pr).dirLayer < 3 ∧ ((geoOf pr).dxLayer = 1 ∨ (geoOf pr).dxLayer = -1) ∧
+    ((geoOf pr).ns = 3 ∨ (geoOf pr).ns = 5 ∨ (geoOf pr).ns = 9) ∧ (geoOf pr).dom = dom :=
+  prepare_ok_geo F dom arg xi0 p eps ns pr h
+
+/-- non-vacuity: over `ℚ` (with `sqrt 1 = 1`) the call `direction="y-"` on a 2×2 domain is accepted -/
+example : (prepare (α := ℚ) ⟨id, fun a _ => a, id, 0⟩ ⟨2, 2, 0⟩ (.str ['y', '-']) (1/2) 40 (1/10000) none).isOk
+    = true := by decide +kernel
 
 /-- `dir_layer` computed from any stored direction is one of the three axes, `dx_layer ∈ {-1, 0, 1}` -/
 theorem overhang_geo_axis {α : Type} [LT α] [DecidableLT α] [Neg α] [OfNat α 0] (pr : Prepared α) :
